@@ -65,10 +65,12 @@ def run(chk):
                                         {"op": second, "token": [98], "amount": [1]}],
                               "plan": {"exchanges": [okp, okp, {"o": "abort", "code": code}, okp] + tail}})
     walks = cl.random_walks(chk.seed + 19, 1500 if thorough else 80, 40)
-    out = cl.run_scenarios(binary, sc + extra + walks, wd, "c19")
+    scripts = cl.script_walks(chk, binary, wd, chk.seed + 19, 2000 if thorough else 150)
+    out = cl.run_scenarios(binary, sc + extra + walks + scripts, wd, "c19")
     outs, ifl, pfl = cl.validate(chk, out, wd, "c19", shard=1500 if thorough else 400)
     cl.report(chk, outs, ifl, pfl, {"P19", "abnormal"}, WHAT)
     chk.cov["traces_validated_against_impl"] = len(outs)
+    chk.cov["reply_script_walks"] = len(scripts)
     chk.cov["evaluations"] = len(outs)
     chk.cov["distinct_nontrivial"] = len(sc) + len(extra)
     chk.cov["rule"] = ("as C07 (all 2-call histories, %s 3-call history, random walks), plus %d end-of-day abort codes x {commit, cancel} x "
